@@ -331,6 +331,15 @@ class C02Run(object):
             self.srv = cls(("sim", 0), logRequests=False, config=cfg)
             st = s.spawn(lambda: self.srv.serve_forever(0.5), "serve_forever", "server")
         self.register(self.srv)
+        npool = None
+        if p.get("npool"):
+            # notifications handed to a pool of their own (a documented option of every dispatcher)
+            import jsonrpclib.threadpool as tpmod
+
+            npool = tpmod.ThreadPool(2, 0, timeout=2.0, logname="c02-notifications")
+            npool.start()
+            self.srv.set_notification_pool(npool)
+            s.probe("notification_pool_set")
         base = p["base"]
         nbytes = len(base.encode("utf-8", "surrogatepass"))
         for dmg in p["damage"]:
@@ -348,6 +357,9 @@ class C02Run(object):
             self.srv.server_close()
             while st.state != core.DONE:
                 s.block(st.joiners, None, "join")
+        if npool is not None:
+            npool.join(60.0)
+            npool.stop()
 
 
 def analyse_c02(program, s, run, verdict):
@@ -406,7 +418,7 @@ class C02Scenario(object):
             for i in range(0, len(dm), self.BATCH):
                 server = ["plain", "dispatcher", "pooled", "dispatcher"][k % 4]
                 self.enumerated.append({"server": server, "version": [2.0, 1.0][(k // 4) % 2], "jsonclass": (k // 8) % 2 == 0,
-                                        "dispatch": "instance" if k % 5 == 4 else "default", "fail_kind": k % 9 if k % 2 else 0,
+                                        "dispatch": "instance" if k % 5 == 4 else "default", "fail_kind": k % 9 if k % 2 else 0, "npool": k % 7 == 3,
                                         "base": base, "damage": dm[i:i + self.BATCH]})
                 k += 1
         self.must_cover = len(self.enumerated)
@@ -440,7 +452,7 @@ class C02Scenario(object):
         rng.shuffle(dm)
         return {"server": rng.choice(["plain", "pooled", "dispatcher"]), "version": rng.choice([2.0, 1.0]),
                 "jsonclass": rng.random() < 0.7, "dispatch": rng.choice(["default", "default", "instance"]),
-                "fail_kind": rng.choice([0, 0] + list(range(9))), "base": base, "damage": dm[:self.BATCH]}
+                "fail_kind": rng.choice([0, 0] + list(range(9))), "npool": rng.random() < 0.2, "base": base, "damage": dm[:self.BATCH]}
 
     def run(self, program, decider, chooser=None):
         s = core.Sched(decider, step_cap=600000, horizon=8192.0, chooser=chooser)
